@@ -2,6 +2,7 @@ package main
 
 import (
 	"go/types"
+	"strings"
 
 	"golang.org/x/tools/go/ssa"
 )
@@ -108,6 +109,12 @@ func nonceZeroAtom(a Atom) (isZero bool, ok bool) {
 			return a.Pol, true
 		}
 	case "cmp":
+		// the byte-loop form: some byte of the nonce is known to be non-zero
+		if a.Op == "!=" && a.Y != nil && a.Y.Op == "Const" && a.Y.S == "0" && a.X != nil && a.X.Op == "Elem" && len(a.X.Args) > 0 {
+			if b := a.X.Args[0]; b != nil && (strings.HasSuffix(b.String(), ".nonce)") || strings.HasSuffix(b.String(), ".nonce))")) {
+				return false, true
+			}
+		}
 		if (a.Op == "==" || a.Op == "!=") && a.Y != nil && a.Y.Op == "Const" && len(a.Y.S) > 5 && a.Y.S[:5] == "zero(" {
 			if x := a.X; x != nil && (x.Op == "Field" || x.Op == "Deref" || x.Op == "Mem") {
 				return a.Op == "==", true
